@@ -32,16 +32,17 @@ fn compare(
     want: &[f64],
     mag: &[f64],
     nontrivial: bool,
+    floor: f64,
     case: impl Fn() -> serde_json::Value,
 ) {
     acc.observe(class, nontrivial);
     let mut worst = 0.0f64;
     let mut bad: Option<(usize, f64)> = None;
     for s in 0..got.len() {
-        let tol = K * u * mag[s];
+        let tol = K * u * mag[s] + floor;
         let d = (got[s] - want[s]).abs();
         let ok = if got[s].is_finite() { d <= tol } else { false };
-        let r = if mag[s] > 0.0 { d / (u * mag[s]) } else if d == 0.0 { 0.0 } else { f64::INFINITY };
+        let r = if d <= floor { 0.0 } else if mag[s] > 0.0 { d / (u * mag[s]) } else if d == 0.0 { 0.0 } else { f64::INFINITY };
         if r.is_finite() && ok {
             worst = worst.max(r);
         }
@@ -114,12 +115,46 @@ fn check_type<T: Jetty>(tname: &str, ctx: &Ctx, shard: usize, nshards: usize, ti
                 let class = format!("{}|{}|{}|{}|{}", f.short(), tname, rname, STYLES[style], presence_key(&pres_in));
                 let name = f.name();
                 ndv_core::evlog::log_unary("C01", tname, *f, &b, &slots, &got, T::IS_F32);
-                compare(&mut acc, &name, tname, &class, &b, u, &got, &want, &mag, nontrivial, || {
+                compare(&mut acc, &name, tname, &class, &b, u, &got, &want, &mag, nontrivial, 0.0, || {
                     json!({"type": tname, "shape": shape.name(), "func": name, "x_slots": floats(&slots), "x_slots_hex": hexes(&slots), "absent_mask": mask, "got": floats(&got), "want": floats(&want)})
                 });
                 if rep == 0 && ri == 0 && fi % 7 == (tindex % 7) as usize {
                     acc.sample(|| json!({"type": tname, "func": name, "region": rname, "x_slots": floats(&slots), "got": floats(&got), "model": floats(&want)}));
                 }
+            }
+        }
+        // wide bands: far from the moderate regions, as long as every contributing term stays
+        // inside the float range (cases where one does not are skipped and counted)
+        for (ri, (rname, rfun)) in ndv_core::funcs::wide_regions(*f, T::IS_F32).iter().enumerate() {
+            for rep in 0..ctx.n(12, 6000) {
+                idx += 1;
+                if idx % nshards as u64 != shard as u64 {
+                    continue;
+                }
+                let mut rng = Rng::stream(ctx.seed, tindex * 1000 + 500 + fi as u64 * 10 + ri as u64, rep);
+                let shape = T::shape(dynd(&mut rng));
+                let b = Basis::new(&shape);
+                let x0 = round_to(rfun(&mut rng), T::IS_F32);
+                let style = (rep as usize) % STYLES.len();
+                let slots = gen_slots(&mut rng, &b, x0, style, T::IS_F32);
+                let xin = Tr::exact(Jet::from_slots(&b, &slots), &b);
+                let m = xin.func(*f, &b);
+                let (want, mag) = m.slots(&b);
+                let (lim, floor) = if T::IS_F32 { (1e36, 1e-36) } else { (1e290, 1e-290) };
+                if want.iter().chain(mag.iter()).any(|v| !v.is_finite() || v.abs() > lim) {
+                    acc.count("wide_cases_skipped_term_outside_float_range", 1);
+                    continue;
+                }
+                let mask = rng.next_u64();
+                let x: T = build_with(&shape, &slots, &mut MaskAbsent::new(mask));
+                let y = apply::<T, T::F>(*f, &x);
+                let got = parts(&y, &shape);
+                let class = format!("{}|{}|{}|{}", f.short(), tname, rname, STYLES[style]);
+                let name = f.name();
+                ndv_core::evlog::log_unary("C01", tname, *f, &b, &slots, &got, T::IS_F32);
+                compare(&mut acc, &name, tname, &class, &b, u, &got, &want, &mag, b.max_deg >= 1, floor, || {
+                    json!({"type": tname, "shape": shape.name(), "func": name, "region": rname, "x_slots": floats(&slots), "x_slots_hex": hexes(&slots), "absent_mask": mask, "got": floats(&got), "want": floats(&want)})
+                });
             }
         }
         // sin_cos must equal (sin, cos) bitwise
@@ -212,7 +247,7 @@ fn check_type<T: Jetty>(tname: &str, ctx: &Ctx, shard: usize, nshards: usize, ti
         let got = parts(&y.atan2(x), &shape);
         let (want, mag) = model_atan2(&Jet::from_slots(&b, &ys), &Jet::from_slots(&b, &xs), &b);
         let class = format!("atan2|{}|q{}|{}|{}", tname, quad, if steep { "|y|>|x|" } else { "|y|<|x|" }, STYLES[style]);
-        compare(&mut acc, "atan2", tname, &class, &b, unit_roundoff::<T>(), &got, &want, &mag, b.max_deg >= 2 || true, || {
+        compare(&mut acc, "atan2", tname, &class, &b, unit_roundoff::<T>(), &got, &want, &mag, b.max_deg >= 2 || true, 0.0, || {
             json!({"type": tname, "func": "atan2", "y_slots": floats(&ys), "x_slots": floats(&xs), "got": floats(&got), "want": floats(&want)})
         });
     }
